@@ -2,6 +2,7 @@ package main
 
 import (
 	"fmt"
+	"go/token"
 	"go/types"
 	"sort"
 	"strings"
@@ -378,6 +379,9 @@ func classifyListStore(w *World, v ssa.Value, ref string) (kind string, elem ssa
 			}
 		}
 	}
+	if elem, pos, ok := makeCopyInsert(v, ref); ok {
+		return "insert-one", elem, pos
+	}
 	ch := appendChain(v)
 	switch len(ch) {
 	case 2:
@@ -401,6 +405,97 @@ func classifyListStore(w *World, v ssa.Value, ref string) (kind string, elem ssa
 		}
 	}
 	return "other", nil, nil
+}
+
+// makeCopyInsert: v is a new list of len(ref)+1 elements filled, before anything else sees it, by
+// copy(v, ref[0:p]); v[p] = x; copy(v[p+1:], ref[p:]) - the insert-one idiom written with make and copy. Every use of
+// v is one of these three or the final store; all three are there, with one and the same p.
+func makeCopyInsert(v ssa.Value, ref string) (elem, pos ssa.Value, ok bool) {
+	mk, isMk := strip(v).(*ssa.MakeSlice)
+	if !isMk || mk.Referrers() == nil {
+		return nil, nil, false
+	}
+	// length len(ref)+1
+	add, isAdd := strip(mk.Len).(*ssa.BinOp)
+	if !isAdd || add.Op != token.ADD {
+		return nil, nil, false
+	}
+	one, isK := constInt(add.Y)
+	src, isLen := lenOf(add.X)
+	if !isK || one != 1 || !isLen {
+		return nil, nil, false
+	}
+	if _, isL := isLoadOf(src, ref); !isL {
+		return nil, nil, false
+	}
+	if strip(mk.Cap) != strip(mk.Len) {
+		if _, capK := constInt(mk.Cap); capK {
+			return nil, nil, false
+		}
+	}
+	isCopy := func(in ssa.Instruction) (*ssa.Call, bool) {
+		call, isCall := in.(*ssa.Call)
+		if !isCall {
+			return nil, false
+		}
+		b, isB := call.Call.Value.(*ssa.Builtin)
+		return call, isB && b.Name() == "copy" && len(call.Call.Args) == 2
+	}
+	var head, tail *ssa.Call
+	var tailLow ssa.Value
+	var elemStore *ssa.Store
+	var elemIdx ssa.Value
+	stores := 0
+	for _, r := range *mk.Referrers() {
+		switch x := r.(type) {
+		case *ssa.DebugRef:
+		case *ssa.Store:
+			if x.Val != ssa.Value(mk) {
+				return nil, nil, false
+			}
+			stores++
+		case *ssa.Call:
+			call, isC := isCopy(x)
+			if !isC || call.Call.Args[0] != ssa.Value(mk) || head != nil {
+				return nil, nil, false
+			}
+			head = call
+		case *ssa.Slice:
+			// v[p+1:] as the destination of the second copy
+			if x.X != ssa.Value(mk) || x.High != nil || x.Low == nil || x.Referrers() == nil || len(*x.Referrers()) != 1 || tail != nil {
+				return nil, nil, false
+			}
+			call, isC := isCopy((*x.Referrers())[0])
+			if !isC || call.Call.Args[0] != ssa.Value(x) {
+				return nil, nil, false
+			}
+			tail, tailLow = call, x.Low
+		case *ssa.IndexAddr:
+			if x.X != ssa.Value(mk) || x.Referrers() == nil || len(*x.Referrers()) != 1 || elemStore != nil {
+				return nil, nil, false
+			}
+			st, isSt := (*x.Referrers())[0].(*ssa.Store)
+			if !isSt || st.Addr != ssa.Value(x) {
+				return nil, nil, false
+			}
+			elemStore, elemIdx = st, x.Index
+		default:
+			return nil, nil, false
+		}
+	}
+	if head == nil || tail == nil || elemStore == nil || stores != 1 {
+		return nil, nil, false
+	}
+	lo1, hi1, ok1 := sliceOfField(head.Call.Args[1], ref)
+	lo3, hi3, ok3 := sliceOfField(tail.Call.Args[1], ref)
+	if !ok1 || !ok3 || !isZeroOrNil(lo1) || hi1 == nil || hi3 != nil || lo3 == nil {
+		return nil, nil, false
+	}
+	p := strip(hi1)
+	if strip(lo3) != p || strip(elemIdx) != p || !isPlusOne(tailLow, p) {
+		return nil, nil, false
+	}
+	return elemStore.Val, hi1, true
 }
 
 // constHeaderNameOf returns the constant name stored into the Header literal v (&Header{name: "..."}).
